@@ -175,7 +175,8 @@ def spec (prop unitsPath : String) (seed : UInt64) : IO UInt32 := do
             let m := if f.treeMode then (u.out j).eval f64Ops env
                      else if u.leafOuts.isSome then (f.post ks o j).eval f64Ops env else (u.out j).eval f64Ops env
             let s := if f.treeMode then (f.specT ks j).eval f64Ops env else (f.spec ks j).eval f64Ops env
-            if !(m == s) && !(m.isNaN && s.isNaN) then
+            let isFrac := f.kind == .frac || f.kind == .fracMod
+            if !(m == s) && !(m.isNaN && s.isNaN) && !(isFrac && (m.isNaN || m.isInf || s.isNaN || s.isInf)) then
               found := true
               cex := cex + 1
               IO.println s!"CEX {name} comp {j} in {xs.map (·.toBits)} model {m.toBits} spec {s.toBits}"
